@@ -148,20 +148,56 @@ def GPat.maxId (p : GPat) : Nat :=
   max (maxIdL p.outputs)
     (p.nodes.foldl (fun m n => max m (maxIdL (n.inputs.filterMap id))) 0)
 
+/-- position `(node, input)` of the first node input that is the OR object `id` (`value is v`) -/
+def findOrInput (id : Nat) : List NPat → Nat → Option (Nat × Nat)
+  | [], _ => none
+  | n :: rest, i =>
+    match n.inputs.findIdx? (fun v => (v.bind orId) == some id) with
+    | some j => some (i, j)
+    | none => findOrInput id rest (i + 1)
+
+/-- `clone_output` of proposed repair C06-F7c: a returned OR value is the copy already made for the node
+input it is (`new_node.inputs[1 - index if swap else index]`); everything else is cloned -/
+def cloneOutput (fix7c : Bool) (p : GPat) (newNodes : List NPat) (swaps : List Bool) (vp : VPat) (k : Nat) :
+    VPat × Nat :=
+  if fix7c then
+    match orId vp with
+    | some id =>
+      match findOrInput id p.nodes 0 with
+      | some (i, j) =>
+        match newNodes[i]?, swaps[i]? with
+        | some n', some sw =>
+          match n'.inputs[if sw then 1 - j else j]? with
+          | some (some v') => (v', k)
+          | _ => cloneV vp k
+        | _, _ => cloneV vp k
+      | none => cloneV vp k
+    | none => cloneV vp k
+  else cloneV vp k
+
+def cloneOutputs (fix7c : Bool) (p : GPat) (newNodes : List NPat) (swaps : List Bool) :
+    List VPat → Nat → List VPat × Nat
+  | [], k => ([], k)
+  | a :: rest, k =>
+    let r := cloneOutput fix7c p newNodes swaps a k
+    let r2 := cloneOutputs fix7c p newNodes swaps rest r.2
+    (r.1 :: r2.1, r2.2)
+
 /-- `copy_graph(swap_list)`; `fix7a = true` restates the repaired `BacktrackingOr.clone`
 (no `ValueError`, finding C06-F7a) -/
-def copyGraph (fix7a : Bool) (p : GPat) (swaps : List Bool) : Except CommuteErr GPat :=
+def copyGraph (fix7a : Bool) (p : GPat) (swaps : List Bool) (fix7c : Bool) : Except CommuteErr GPat :=
   if !swaps.any id then .ok p else
   match cloneNodes fix7a p.nodes swaps (p.maxId + 1) with
   | .error e => .error e
   | .ok (nodes, k) =>
     if !fix7a && cloneRaisesL p.outputs then .error .valueError else
-    let outs := (cloneL p.outputs k).1
+    let outs := (cloneOutputs fix7c p nodes swaps p.outputs k).1
     let q : GPat := { p with nodes := nodes, outputs := outs }
     if q.ctorOk then .ok q else .error .notImplemented
 
-/-- `GraphPattern.commute` -/
-def commute (fix7a : Bool) (p : GPat) (fix7b : Bool := true) : Except CommuteErr (List GPat) :=
-  (masks fix7b p.nodes).mapM (copyGraph fix7a p)
+/-- `GraphPattern.commute`; `fix7b`, `fix7c` select the repaired revisions (C06-F7b committed; C06-F7c proposed) -/
+def commute (fix7a : Bool) (p : GPat) (fix7b : Bool := true) (fix7c : Bool := false) :
+    Except CommuteErr (List GPat) :=
+  (masks fix7b p.nodes).mapM (fun m => copyGraph fix7a p m fix7c)
 
 end OV.C06
